@@ -7,7 +7,7 @@ props = [json.loads(l)["id"] for l in open(os.path.join(V, "properties.jsonl"))]
 
 ENGINE = "mcx"
 EXPL = "stateless deviation-bounded exploration of the real election code in synctest bubbles (virtual time) against a gated reference store; oracle on the full observation trace of every execution"
-NOTE = "Bounded: 2-4 instances, <=2 groups, deviation bound d per scenario as reported in the evidence (quick d=1..2, thorough d=2..3); reference store semantics validated against the embedded nats-server by C14; goroutine interleavings between two store/timer seams only in fine-mode windows."
+NOTE = "Bounded: 2-4 instances, <=2 groups, deviation bound d per scenario as reported in the evidence (quick d=1..2, thorough d=2..3); reference store semantics validated against the embedded nats-server by C14; goroutine interleavings between two store/timer seams only in fine-mode windows (scheduling points at every sync/atomic operation and user callback, <=2 preemptions quick / <=3 thorough); two library goroutines that become runnable at the same virtual instant run in an uncontrolled order (scenarios avoid such coincidences; a violation must reproduce 5/5 on replay)."
 CHECKS = {
  "C01": dict(cat="exploration", tech=EXPL, ref="DESIGN §5 C01", note=NOTE,
    text="Every applied mutation in the complete, caller-tagged store log of every explored execution (fault-free, crash, partition, error/lost-ack, preemption, two-group and stop/restart scenarios) is classified against the version it replaced: create over no live record, owner refresh with identical id/token, revision-checked takeover by a strictly higher-priority takeover-enabled instance, or owner's delete inside its own StopWithContext; anything else, or any op on another group's key, is a violation."),
